@@ -164,3 +164,93 @@ mut('c20-peek-range-past-end-none', 'C20', 'utils.py',
                 raise IndexError
             return self[self.__i + j[0]:self.__i + j[1]]
         except IndexError:""")
+
+# ---------------------------------------------------------------- C03 ------
+mut('c03-all-skips-bracket-args', 'C03 C04', 'data.py',
+    """        for arg in self.args:
+            for expr in arg.contents:
+                yield expr
+        for content in self._contents:
+            yield content""",
+    """        for arg in self.args:
+            if isinstance(arg, BracketGroup) and len(self.args) > 2:
+                continue
+            for expr in arg.contents:
+                yield expr
+        for content in self._contents:
+            yield content""")
+mut('c03-descendants-first-children-only', 'C03 C04', 'data.py',
+    """        return itertools.chain(self.contents,
+                               *[c.descendants for c in self.children])""",
+    """        return itertools.chain(self.contents,
+                               *[c.descendants for c in self.children[:6]])""")
+mut('c03-env-match-begin-only', 'C03', 'data.py',
+    """        if name in (self.name, self.begin +
+                    str(self.args), self.begin, self.end):""",
+    """        if name in (self.name, self.begin, self.end):""")
+mut('c03-find-returns-last', 'C03', 'data.py',
+    """            return self.find_all(name, **attrs)[0]""",
+    """            return self.find_all(name, **attrs)[-1]""")
+mut('c03-match-startswith', 'C03', 'data.py',
+    """        if '{' in name or '[' in name:
+            return str(self) == name""",
+    """        if '{' in name or '[' in name:
+            return str(self).startswith(name)""")
+mut('c03-match-case-insensitive', 'C03', 'data.py',
+    """        for k, v in attrs.items():
+            if getattr(self, k) != v:
+                return False
+        return True""",
+    """        for k, v in attrs.items():
+            if str(getattr(self, k)).lower() != str(v).lower():
+                return False
+        return True""")
+
+# ---------------------------------------------------------------- C04 ------
+mut('c04-blank-filter-needs-newline', 'C04', 'data.py',
+    """            is_whitespace = isinstance(content, str) and content.isspace()""",
+    """            is_whitespace = isinstance(content, str) and content.isspace() \\
+                and content != '\\t'""")
+mut('c04-children-no-parent', 'C04', 'data.py',
+    """        for child in self.expr.children:
+            node = TexNode(child)
+            node.parent = self
+            yield node""",
+    """        for child in self.expr.children:
+            node = TexNode(child)
+            if not isinstance(child, TexNamedEnv) or child.args:
+                node.parent = self
+            yield node""")
+mut('c04-text-skips-math', 'C04', 'data.py',
+    """            elif hasattr(descendant, 'text'):
+                yield from descendant.text""",
+    """            elif hasattr(descendant, 'text') and descendant.name != '$$':
+                yield from descendant.text""")
+mut('c04-children-drop-empty-items', 'C04 C03', 'data.py',
+    """        return filter(lambda x: isinstance(x, (TexEnv, TexCmd)), self.contents)""",
+    """        return filter(lambda x: isinstance(x, (TexEnv, TexCmd)) and not (
+            x.name == 'item' and not x._contents and not x.args), self.contents)""")
+
+# ---------------------------------------------------------------- C13 ------
+mut('c13-radd-keeps-position', 'C13', 'utils.py',
+    """            other + self.text, self.position - len(other), self.category)""",
+    """            other + self.text, self.position, self.category)""")
+mut('c13-lstrip-offset', 'C13', 'utils.py',
+    """        stripped = self.text.lstrip(*args, **kwargs)
+        offset = self.text.find(stripped)""",
+    """        stripped = self.text.lstrip(*args, **kwargs)
+        offset = len(self.text) - len(stripped) - (1 if self.text[:1] == '\\t' else 0)""")
+mut('c13-group-position-after-brace', 'C13 C01', 'reader.py',
+    """        if src.peek().category == arg.token_end:
+            src.forward()
+            return arg(*content[1:], position=c.position)""",
+    """        if src.peek().category == arg.token_end:
+            src.forward()
+            return arg(*content[1:], position=c.position if len(content) < 4
+                       else content[1].position - 1 if hasattr(content[1], 'position') else c.position)""")
+mut('c13-regex-no-start', 'C13', 'data.py',
+    """                yield Token(body, node.position + start)""",
+    """                yield Token(body, node.position + (start if start < 7 else 7))""")
+mut('c13-linecol-last-line', 'C13', 'utils.py',
+    """            char_no = min(char_pos - line_start - 1, self.src_len - line_start)""",
+    """            char_no = min(char_pos - line_start - 1, 5)""")
